@@ -1,6 +1,6 @@
 \* emission, thorough (workers 1): documents within ThoroughEmit(family) edits
 CONSTANT MaxLevel <- ThoroughEmit
-CONSTANT Families = {"links", "comp", "stack", "pins", "core"}
+CONSTANT Families = {"links", "comp", "stack", "pins", "core", "duct"}
 INVARIANT EmitState
 INIT Init
 NEXT Next
